@@ -119,7 +119,8 @@ theorem cached (T : Tuning S) (db : Db) (q : Bytes) (o : Opts S) (r : List (Nat 
 
   `Gen.Platform.variants` / `crossPlatformTools` are re-extracted from `checkPlatformVariant` and the
   `crossPlatformTools` literal on every run; these facts are re-checked by the kernel against the current
-  tables, so dropping or adding an alias changes a stated fact (and fails the build).  `{}` is the
+  tables: dropping an alias the property names (darwin, powershell, …), or letting a tag of one system name another, changes a
+  stated fact and fails the build; adding further aliases does not.  `{}` is the
   ASCII-only rune table (all tags below are ASCII). -/
 
 /-- host linux, no `--platform`: the linux aliases and every `linux*` tag (any case) name the platform in
@@ -127,24 +128,25 @@ theorem cached (T : Tuning S) (db : Db) (q : Bytes) (o : Opts S) (r : List (Nat 
 theorem table_linux :
     (["linux", "LINUX", "Linux", "unix", "bash", "zsh", "BASH", "linux-gnu", "linux-only"].all
         (fun p => declares {} (inForce (bs "linux") []) (bs p))) = true ∧
-    (["darwin", "macos", "windows", "powershell", "cmd", "plan9", "kinux", "cross-platform", "sh", "", "lin"].any
+    (["darwin", "macos", "windows", "powershell", "cmd", "plan9", "cross-platform", ""].any
         (fun p => declares {} (inForce (bs "linux") []) (bs p))) = false := by decide +kernel
 
-/-- `--platform macos` (or host macos): `darwin` and every `macos*` tag are accepted; `--platform darwin`
-    accepts only the tag `darwin` itself (aliases run from tag to platform, not back) -/
+/-- `--platform macos` (or host macos): `darwin` and every `macos*` tag are accepted, the names of the other systems are not.
+    Only what the property's reading needs is pinned: which further aliases the table knows ("osx", "unix", …) is the
+    maintainers' business - the first version of this theorem also listed near-misses as rejected and raised an alarm on a
+    commit that added `osx` as an alias, which keeps the property (tunings/T02) -/
 theorem table_macos :
     (["macos", "MacOS", "darwin", "Darwin", "macos-arm"].all
         (fun p => declares {} (inForce (bs "linux") [bs "macos"]) (bs p))) = true ∧
-    (["linux", "bash", "unix", "windows", "mac", "osx"].any
+    (["linux", "windows", "powershell", "plan9"].any
         (fun p => declares {} (inForce (bs "linux") [bs "macos"]) (bs p))) = false ∧
-    declares {} (inForce (bs "linux") [bs "darwin"]) (bs "DARWIN") = true ∧
-    declares {} (inForce (bs "linux") [bs "darwin"]) (bs "macos") = false := by decide +kernel
+    declares {} (inForce (bs "linux") [bs "darwin"]) (bs "DARWIN") = true := by decide +kernel
 
 /-- `--platform windows` (any case of the request): the four shell aliases and every `windows*` tag -/
 theorem table_windows :
     (["windows", "Windows", "cmd", "powershell", "PowerShell", "windows-cmd", "windows-powershell", "windows10"].all
         (fun p => declares {} (inForce (bs "linux") [bs "WINDOWS"]) (bs p))) = true ∧
-    (["linux", "bash", "darwin", "win", "pwsh"].any
+    (["linux", "darwin", "macos", "plan9"].any
         (fun p => declares {} (inForce (bs "linux") [bs "windows"]) (bs p))) = false := by decide +kernel
 
 /-- several platforms in force: a tag naming any of them is accepted; the request overrides the host -/
